@@ -43,6 +43,8 @@ def g_bcase(case):
             ops.append("BNew %s" % ("true" if op[1] else "false"))
         elif op[0] == 'ext':
             ops.append("BExt %s %s" % (g_nat(op[1]), g_bstep(op[2], table)))
+        elif op[0] == 'log':
+            ops.append("BLog %s" % g_nat(op[1]))
         else:
             ops.append("BFind %s" % g_nat(op[1]))
     return "{| b_doc := %s; b_ops := %s |}" % (g_json(case['doc'], table), g_list(ops))
@@ -77,9 +79,49 @@ def gen_bstep(rng, doc_keys):
     return ('pred', rng.choice(['P1', 'is_ok', '(grouped)']), up)
 
 
-def gen_bcase(rng):
+# scalars whose repr() exercises quoting, escaping and the 20-character cut of the tracer's log lines
+LOG_SCALARS = [0, 1, -1, 7, 123456789012345678901234, '', 'a', 'xy', "it's", 'say "hi"', 'a\\b', "both ' and \"", 'abcdefghijklmnopqrstuvwxyz',
+               'nineteen chars long', 'twenty characters ..', None, False, True, 0.0, 1.5, -0.5, 2.0, 2.5, -3.0]
+
+
+def gen_logcase(rng):
+    """a chain of expressions that follows the document, each drained under the library's own tracer"""
+    doc = gen_doc(rng, budget=rng.choice([8, 12, 20]), depth=4, scalars=LOG_SCALARS,
+                  keys=['a', 'b', 'k', 'x-y', 'x_y', "q'", 'zz', 'c'])
+    ops = [('new', rng.random() < 0.3)]
+    n = 1
+    node = doc
+    for _ in range(rng.choice([1, 2, 3, 4, 5])):
+        r = rng.random()
+        if isinstance(node, dict) and node and r < 0.8:
+            k = rng.choice(list(node))
+            step = rng.choice([('item', k), ('item', k), ('wc', False), ('gwc', True, False), ('rec', False),
+                               ('tuple', [k, rng.choice(list(node))])])
+            node = node[k]
+        elif isinstance(node, list) and node and r < 0.8:
+            i = rng.randrange(len(node))
+            step = rng.choice([('idx', i), ('idx', i - len(node)), ('lwc', False), ('gwc', False, False), ('rec', False),
+                               ('slice', None, None, None), ('slice', None, None, -1), ('tuple', [i, 0])])
+            node = node[i]
+        else:
+            step = gen_bstep(rng, ['a', 'b', 'k', 'x-y', 'zz'])
+        ops.append(('ext', n - 1, step))
+        n += 1
+        if rng.random() < 0.4:
+            ops.append(('log', n - 1))
+    ops.append(('log', n - 1))
+    return {'doc': doc, 'ops': ops}
+
+
+def gen_bcase(rng, log=False):
+    if log and rng.random() < 0.8:
+        return gen_logcase(rng)
     # a document whose keys contain both dashed and underscored spellings
-    base = gen_doc(rng, budget=rng.choice([6, 10, 16]), depth=4, keys=['a', 'b', 'k', 'x-y', 'x_y', 'a-b-c', 'a_b_c', 'zz', 'c'])
+    if log:
+        base = gen_doc(rng, budget=rng.choice([6, 10, 16]), depth=4, scalars=LOG_SCALARS,
+                       keys=['a', 'b', 'k', 'x-y', 'x_y', "q'", 'zz', 'c'])
+    else:
+        base = gen_doc(rng, budget=rng.choice([6, 10, 16]), depth=4, keys=['a', 'b', 'k', 'x-y', 'x_y', 'a-b-c', 'a_b_c', 'zz', 'c'])
     doc_keys = ['a', 'b', 'k', 'x-y', 'x_y', 'a-b-c', 'zz']
     ops = [('new', rng.random() < 0.5)]
     n = 1
@@ -91,6 +133,10 @@ def gen_bcase(rng):
         if r < 0.65:
             ops.append(('ext', rng.randrange(n), gen_bstep(rng, doc_keys)))
             n += 1
+        elif log:
+            ops.append(('log', rng.randrange(n)))
         else:
             ops.append(('find', rng.randrange(n)))
+    if log:
+        ops.append(('log', n - 1))
     return {'doc': base, 'ops': ops}
